@@ -288,7 +288,7 @@ def steer(pkg, rng, with_dates):
     names = {d.name for d in pkg.defs()}
     if "SteerFlags" in names:
         return
-    pkg.files[fn].append(M.Enum("SteerFlags", rng.choice([None, "uint8", "uint64"]), [("fa", 1), ("fb", 2), ("fc", 8)], flags=True))
+    pkg.files[fn].append(M.Enum("SteerFlags", rng.choice([None, "uint8", "uint64"]), [("fa", 1), ("fb", 2), ("fc", 8), ("fab", 3), ("fde", 48)], flags=True))   # single bits, a composite of two of them, a symbol of two bits that have no symbols of their own
     pkg.files[fn].append(M.Enum("SteerEnum", rng.choice([None, "int16"]), [("ea", 0), ("eb", 5), ("ec", 100)]))
     pkg.files[fn].append(M.Record("SteerRec", (), [("must", M.Prim("int32")), ("maybe", M.Opt(M.Prim("int32"))), ("extra", M.Opt(M.Prim("string"))),
                                                   ("alt", M.Union((("int32", M.Prim("int32")), ("string", M.Prim("string"))), nullable=True))]))
